@@ -1236,6 +1236,91 @@ def emit_curve(ev):
     return '\n'.join(out)
 
 
+def emit_zero(ev):
+    """slices of `TrajectoryCalc.zero_angle`: start elevation, zero distance, initial error, loop condition, the error and the
+    correction computed from the second row of the trial trajectory, the final verdict"""
+    f = ev.method('TrajectoryCalc', 'zero_angle')
+    if f is None:
+        raise Unsupported('zero_angle not found')
+    wl = [i for i, n in enumerate(f.body) if isinstance(n, ast.While)]
+    if len(wl) != 1:
+        raise Unsupported('zero_angle: one while loop expected')
+    k = wl[0]
+    pre = [n for n in f.body[:k] if not (isinstance(n, ast.Expr) and isinstance(n.value, ast.Call) and ev.dotted(n.value.func) == 'self._init_trajectory')]
+    if len(pre) != len(f.body[:k]) - 1:
+        raise Unsupported('zero_angle does not start with self._init_trajectory(shot_info)')
+    env = {'self.look_angle': Num('look'), 'self._config.cZeroFindingAccuracy': Num('acc'), 'self._config.cMaxIterations': IntSym('maxIter'),
+           'distance': Qty('Distance:lookft', 'distFt'), 'self.__class__': 'TrajectoryCalc'}
+    # `distance >> Distance.Foot`: the look-distance in feet is the parameter of the model
+    pre2 = []
+    for n in pre:
+        if isinstance(n, ast.Assign) and isinstance(n.targets[0], ast.Name) and n.targets[0].id == 'distance_feet':
+            if ast.dump(n.value) != ast.dump(ast.parse('distance >> Distance.Foot').body[0].value):
+                raise Unsupported('distance_feet is not distance >> Distance.Foot')
+            env['distance_feet'] = Num('distFt')
+            continue
+        pre2.append(n)
+    if ev.block(pre2, env) is not None:
+        raise Unsupported('zero_angle: return before the loop')
+    out = []
+    out.append(f'/-- `zero_angle`: the elevation the search starts from -/\ndef zero_start (look : α) : α :=\n  {num(env["self.barrel_elevation"])}\n')
+    out.append(f'/-- `zero_angle`: horizontal distance of the aim point -/\ndef zero_distance (look distFt : α) : α :=\n  {num(env["zero_distance"])}\n')
+    out.append(f'/-- `zero_angle`: the error the loop starts with -/\ndef zero_initial_error (acc : α) : α :=\n  {num(env["zero_finding_error"])}\n')
+    it0 = env['iterations_count']
+    out.append(f'/-- `zero_angle`: initial iteration count -/\ndef zero_initial_count : Nat :=\n  {it0.v if isinstance(it0, IntC) else it0.s}\n')
+    loop = f.body[k]
+    e2 = dict(env)
+    e2.update({'zero_finding_error': Num('err'), 'iterations_count': IntSym('iters'), 'self.barrel_elevation': Num('el'), 'zero_distance': Num('zd')})
+    c = ev.cond(loop.test, e2)
+    out.append(f'/-- `zero_angle`: the loop condition -/\nabbrev zero_cond (acc : α) (maxIter : Nat) (err : α) (iters : Nat) : Prop :=\n  {c.s}\n')
+    body = loop.body
+    # t = self._integrate(shot_info, zero_distance, zero_distance, TrajFlag.RANGE)[1]
+    want = ast.dump(ast.parse('t = self._integrate(shot_info, zero_distance, zero_distance, TrajFlag.RANGE)[1]').body[0])
+    if not body or ast.dump(body[0]) != want:
+        raise Unsupported('zero_angle: the trial trajectory is not `self._integrate(shot_info, zero_distance, zero_distance, TrajFlag.RANGE)[1]`')
+    e2['t'] = Obj('TrajectoryData', {'height': Qty('Distance', 'row.height'), 'distance': Qty('Distance', 'row.distance')})
+    ifs = [i for i, n in enumerate(body) if isinstance(n, ast.If)]
+    if len(ifs) != 1:
+        raise Unsupported('zero_angle: loop body shape')
+    j = ifs[0]
+    if ev.block(body[1:j], e2) is not None:
+        raise Unsupported('zero_angle: return in the loop body')
+    out.append(f'/-- `zero_angle`: the error of a trial trajectory whose second row is `row` -/\ndef zero_error (look : α) (row : Model.Row α) : α :=\n  {num(e2["zero_finding_error"])}\n')
+    iff = body[j]
+    c2 = ev.cond(iff.test, e2)
+    if not (len(iff.orelse) == 1 and isinstance(iff.orelse[0], ast.Break)):
+        raise Unsupported('zero_angle: the else branch is not `break`')
+    e3 = dict(e2)
+    e3['zero_finding_error'] = Num('err')
+    c2b = ev.cond(iff.test, e3)
+    out.append(f'/-- `zero_angle`: the trial missed (correct and go on) — otherwise `break` -/\nabbrev zero_missed (acc err : α) : Prop :=\n  {c2b.s}\n')
+    if ev.block(iff.body, e2) is not None:
+        raise Unsupported('zero_angle: return in the correction')
+    out.append('/-- `zero_angle`: the corrected elevation after a trial that missed -/\n'
+               f'def zero_correct (look : α) (row : Model.Row α) (zd el : α) : α :=\n  {num(e2["self.barrel_elevation"])}\n')
+    rest = body[j + 1:]
+    want = ast.dump(ast.parse('iterations_count += 1').body[0])
+    if len(rest) != 1 or ast.dump(rest[0]) != want:
+        raise Unsupported('zero_angle: the loop does not end with iterations_count += 1')
+    # after the loop
+    post = f.body[k + 1:]
+    e4 = dict(env)
+    e4.update({'zero_finding_error': Num('err'), 'iterations_count': IntSym('iters'), 'self.barrel_elevation': Num('el')})
+    ev.guards = []
+    if len(post) != 2 or not (isinstance(post[0], ast.If) and len(post[0].body) == 1 and isinstance(post[0].body[0], ast.Raise)):
+        raise Unsupported('zero_angle: the part after the loop was not recognised')
+    want = ast.dump(ast.parse('raise ZeroFindingError(zero_finding_error, iterations_count, Angular.Radian(self.barrel_elevation))').body[0])
+    if ast.dump(post[0].body[0]) != want:
+        raise Unsupported('zero_angle: the error raised after the loop changed')
+    r = ev.block(post, e4)
+    if not isinstance(r, Qty) or len(ev.guards) != 1:
+        raise Unsupported('zero_angle: result')
+    out.append(f'/-- `zero_angle`: after the loop, `raise ZeroFindingError(err, iterations, elevation)` when this holds -/\nabbrev zero_fails (acc err : α) : Prop :=\n  {ev.guards[0].s}\n')
+    out.append(f'/-- `zero_angle`: the returned elevation (raw radians) -/\ndef zero_result (el : α) : α :=\n  {r.raw}\n')
+    ev.guards = []
+    return '\n'.join(out)
+
+
 def find_self_assign(ev, cls, meth, attr):
     m = ev.method(cls, meth)
     for n in ast.walk(m) if m else []:
@@ -1301,7 +1386,8 @@ def generate(repo: Path) -> str:
     out.append(emit_sock(ev))
     out.append(emit_loop_parts(ev))
     out.append(emit_curve(ev))
-    out += ['end', '', 'def translated : List String := [' + ', '.join(f'"{s[0]}"' for s in SPECS) + ', "step", ' + ', '.join(f'"{s[0]}"' for s in FILTER_SPECS) + ', "sock_init", "sock_vector_for_range", "sock_current_vector", "initial_state", "min_step", "loop_condition", "limit_reason", "curve_first", "curve_loop_bounds", "curve_mid", "curve_last", "bsearch_init", "bsearch_cond", "bsearch_step", "curve_select", "curve_value"]', '', 'end BC.Gen.Src', '']
+    out.append(emit_zero(ev))
+    out += ['end', '', 'def translated : List String := [' + ', '.join(f'"{s[0]}"' for s in SPECS) + ', "step", ' + ', '.join(f'"{s[0]}"' for s in FILTER_SPECS) + ', "sock_init", "sock_vector_for_range", "sock_current_vector", "initial_state", "min_step", "loop_condition", "limit_reason", "curve_first", "curve_loop_bounds", "curve_mid", "curve_last", "bsearch_init", "bsearch_cond", "bsearch_step", "curve_select", "curve_value", "zero_start", "zero_distance", "zero_initial_error", "zero_initial_count", "zero_cond", "zero_error", "zero_missed", "zero_correct", "zero_fails", "zero_result"]', '', 'end BC.Gen.Src', '']
     return '\n'.join(out)
 
 
